@@ -349,6 +349,14 @@ func (ex *Exec) applyCall(st *State, fr *Frame, c *ssa.CallCommon, fc *FuncContr
 				fc = ft
 				full = "functype " + ft.Name
 			}
+			for pn, cn := range ex.fc.ParamContracts {
+				if pv, ok := ex.params[pn]; ok && pv.T.S == fnv.S {
+					if pc, ok := ex.w.CS.Externs[cn]; ok {
+						fc = pc
+						full = "parameter " + pn + " as " + cn
+					}
+				}
+			}
 		}
 	}
 	freshResults := func() []Term {
@@ -407,6 +415,28 @@ func (ex *Exec) applyCall(st *State, fr *Frame, c *ssa.CallCommon, fc *FuncContr
 		}
 		ex.addOb(st, "pre", lbl, r.Src, pos, cv.T)
 		st.assume(cv.T)
+	}
+	if extra := ex.fc.CallAsserts[fc.Name]; len(extra) > 0 && len(st.frames) == 1 {
+		cenv := env.child()
+		for k, v := range ex.params {
+			if _, shadow := cenv.vars[k]; !shadow {
+				cenv.vars[k] = v
+			}
+		}
+		cenv.old = ex.entry
+		for i, r := range extra {
+			cv, err := cenv.Eval(r.Expr)
+			if err != nil {
+				ex.aborted = fmt.Sprintf("%s:%d: at %s requires: %v", r.File, r.Line, fc.Name, err)
+				return freshResults()
+			}
+			lbl := r.Label
+			if lbl == "" {
+				lbl = fmt.Sprintf("%s.at.%s.requires%d", ex.fn.Name(), shortName(fc.Name), i)
+			}
+			ex.addOb(st, "pre", lbl, r.Src, pos, cv.T)
+			st.assume(cv.T)
+		}
 	}
 	old := st.heap.clone()
 	env.old = old
@@ -763,14 +793,15 @@ func (ex *Exec) appendSlices(st *State, s, t Term, sT, tT types.Type) Term {
 	na := w.Fresh("append!arr", inner)
 	ls, lt := SLen(s), SLen(t)
 	i := Term{"i!q", SInt}
-	st.assume(Term{fmt.Sprintf("(forall ((i!q Int)) (! (=> (and (<= 0 i!q) (< i!q %s)) (= (select %s i!q) (select (select %s %s) (+ %s i!q)))) :pattern ((select %s i!q))))",
-		ls.S, na.S, arr.S, SBase(s).S, SOff(s).S, na.S), SBool})
-	_ = i
+	srcS := Select(Select(arr, SBase(s)), EIdx(SOff(s), i))
+	st.assume(Term{fmt.Sprintf("(forall ((i!q Int)) (! (=> (and (<= 0 i!q) (< i!q %s)) (= (select %s i!q) %s)) :pattern ((select %s i!q))))",
+		ls.S, na.S, srcS.S, na.S), SBool})
 	if lt.S != "0" {
-		st.assume(Term{fmt.Sprintf("(forall ((i!q Int)) (! (=> (and (<= 0 i!q) (< i!q %s)) (= (select %s (+ %s i!q)) (select (select %s %s) (+ %s i!q)))) :pattern ((select (select %s %s) (+ %s i!q)))))",
-			lt.S, na.S, ls.S, arr.S, SBase(t).S, SOff(t).S, arr.S, SBase(t).S, SOff(t).S), SBool})
+		srcT := Select(Select(arr, SBase(t)), EIdx(SOff(t), i))
+		st.assume(Term{fmt.Sprintf("(forall ((i!q Int)) (! (=> (and (<= 0 i!q) (< i!q %s)) (= (select %s (eidx %s i!q)) %s)) :pattern (%s)))",
+			lt.S, na.S, ls.S, srcT.S, srcT.S), SBool})
 		// common case: a single appended element
-		st.assume(Implies(Eq(lt, IntLit(1)), Eq(Select(na, ls), Select(Select(arr, SBase(t)), SOff(t)))))
+		st.assume(Implies(Eq(lt, IntLit(1)), Eq(Select(na, ls), Select(Select(arr, SBase(t)), EIdx(SOff(t), IntLit(0))))))
 	}
 	w.heapSet(st.heap, n, Store(arr, r, na))
 	ln := Add(ls, lt)
